@@ -168,6 +168,41 @@ _G = {}
 _NORM = {}
 
 
+_REQUESTED = []
+
+
+def requested():
+    """(name, normalised function) of every kernel a rule of this process has asked for"""
+    return list(_REQUESTED)
+
+
+def single_precision(fn):
+    """declarations, casts and literals of type float in a (normalised, helpers inlined) kernel: the data are float64 and
+    every property is stated for double arithmetic, so a float temporary silently drops 29 bits"""
+    from .cfront import text
+    out = []
+
+    def rec(n):
+        if not isinstance(n, dict):
+            return
+        k = n.get("kind")
+        q = n.get("type", {}).get("qualType", "") if isinstance(n.get("type"), dict) else ""
+        isf = "float" in q.replace("double", "")
+        if k in ("VarDecl", "ParmVarDecl") and isf:
+            out.append((n.get("_line", 0), f"{q} {n.get('name')}"))
+        elif k == "CStyleCastExpr" and isf:
+            out.append((n.get("_line", 0), f"cast to {q}"))
+        elif k == "FloatingLiteral" and isf:
+            out.append((n.get("_line", 0), f"float literal {n.get('value')}"))
+        for c in n.get("inner", []) or []:
+            rec(c)
+    rec(fn.get("body") or {})
+    for p_ in fn.get("params", []) or []:
+        if isinstance(p_, dict):
+            rec(p_)
+    return out
+
+
 def normalised(K, qname, repo):
     """function `qname` after the semantics-preserving rewrites of cnorm (helpers inlined, temporaries substituted)"""
     from . import cnorm, pyxread
@@ -181,7 +216,10 @@ def normalised(K, qname, repo):
                     entries.add(sh.kernel)
         inl = _NORM[key] = cnorm.normalise_all(K, entries)
     try:
-        return inl.normalised(qname)
+        fn = inl.normalised(qname)
+        if all(q != qname for q, _ in _REQUESTED):
+            _REQUESTED.append((qname, fn))
+        return fn
     except cnorm.Unsupported as e:
         raise AnalysisError(f"{K['fns'][qname]['file']}: {qname}: normalisation refused ({e})")
 
